@@ -357,7 +357,7 @@ Theorem create_table_refuses : forall prof k tn cols,
    (exists c v, In c cols /\ In v (c_enum c) /\ (v = [] \/ In 59 v))) ->
   pkg_create_table prof k tn cols = (k, Err).
 Proof.
-  intros prof k tn cols H. unfold pkg_create_table.
+  intros prof k tn cols H. unfold pkg_create_table, pkg_create_table_with.
   destruct (negb (is_valid_tname tn)); [reflexivity|].
   destruct (existsb (str_eqb tn) CREATE_TABLE_EXTRA_RESERVED); [reflexivity|].
   destruct cols as [|c0 r0] eqn:Ec; [reflexivity|]. rewrite <- Ec in *.
